@@ -24,6 +24,8 @@ RT = os.environ.get('VH_RT', 'ofv')                 # ofv | aic | bic:mixed | bi
 CM = int(os.environ.get('VH_CM', '1'))              # lrt cutoff argument: 0 None, 1 scalar 0.001, 2 tuple (0.1, 0.2)
 PAR = os.environ.get('VH_PAR', 'base')              # lrt parents: base (parent_dict None) | chain | sym | symobj
 OKPIN = os.environ.get('VH_OK', '')                 # e.g. '1x0': strictness flags of the first models pinned (x = free)
+CUTPIN = os.environ.get('VH_CUT', '')               # rank: '0'/'1' pins use_cut
+PENPIN = os.environ.get('VH_PEN', '')               # rank: '0'/'1' pins use_pen
 CHUNK = os.environ.get('VH_CHUNK', '')              # strictness expressions: 'i/n' -> every n-th expression from i
 SLEVEL = int(os.environ.get('VH_SLEVEL', '2'))      # strictness expressions with <= SLEVEL connectives (and/or)
 NONAN = os.environ.get('VH_NONAN', '0') == '1'      # rank_lrt: no NaN OFVs (flags ignored)
@@ -289,6 +291,10 @@ def rank(v0: int, v1: int, v2: int, v3: int, v4: int, ok0: bool, ok1: bool, ok2:
     post: _ == True
     """
     n = NC + 1
+    if CUTPIN in ('0', '1'):
+        use_cut = CUTPIN == '1'
+    if PENPIN in ('0', '1'):
+        use_pen = PENPIN == '1'
     return _rank_body(n, (v0, v1, v2, v3, v4), (ok0, ok1, ok2, ok3, ok4), (k0, k1, k2, k3, k4), use_cut, cutoff,
                       use_pen, (p0, p1, p2, p3, p4))
 
